@@ -51,6 +51,9 @@ class Loader:
         self.shadows = shadows
         self.quiet = quiet
         self.sha = {}
+        self.snap = []      # (container object, pristine shallow copy): module-level and default-argument state of the loaded code
+        from . import core as _core
+        _core.PATH_START_HOOKS.append(self.reset_state)
 
     def path(self, name):
         return os.path.join(REPO, FILES[name])
@@ -78,7 +81,44 @@ class Loader:
             warnings.simplefilter("ignore")
             code = compile(raw.decode('utf8'), path, 'exec')
         exec(code, mod.__dict__)
+        self._snapshot(mod)
         return mod
+
+    def _snapshot(self, mod):
+        """remember mutable module-level containers and mutable default arguments, so that every explored path starts from the
+        state of a fresh process (paths are re-executions in one process; state carried *within* a path is kept)"""
+        def note(obj):
+            if type(obj) in (dict, list, set):
+                self.snap.append((obj, type(obj)(obj)))
+
+        def funcs(ns):
+            for v in list(ns.values()):
+                f = getattr(v, '__func__', v)
+                if isinstance(f, types.FunctionType) and f.__module__ == mod.__name__:
+                    for d in (f.__defaults__ or ()):
+                        note(d)
+                    for d in (f.__kwdefaults__ or {}).values():
+                        note(d)
+        for k, v in list(mod.__dict__.items()):
+            if k.startswith('__'):
+                continue
+            if getattr(v, '__module__', None) not in (None, mod.__name__) and not type(v) in (dict, list, set):
+                continue
+            note(v)
+            if isinstance(v, type) and v.__module__ == mod.__name__:
+                for kk, vv in list(vars(v).items()):
+                    if not kk.startswith('__'):
+                        note(vv)
+                funcs(vars(v))
+        funcs(mod.__dict__)
+
+    def reset_state(self):
+        for obj, pristine in self.snap:
+            if type(obj) is list:
+                obj[:] = pristine
+            else:
+                obj.clear()
+                obj.update(pristine)
 
     def _resolve(self, nm):
         if nm in self.extra_modules:
